@@ -346,6 +346,14 @@ func (p *ProofD) ChallengeContribution(pk *gabikeys.PublicKey) ([]*big.Int, erro
 	}
 
 	if p.RangeProofs != nil {
+		// Each range proof is verified against the response of the hidden attribute it is about.
+		// A range proof for any other index (disclosed, or not in the proof at all) cannot be
+		// verified and must not be carried along by a proof that is accepted.
+		for index := range p.RangeProofs {
+			if p.AResponses[index] == nil {
+				return nil, errors.New("range proof for an attribute that is not hidden in this proof")
+			}
+		}
 		if p.cachedRangeStructures == nil {
 			if err := p.reconstructRangeProofStructures(pk); err != nil {
 				return nil, err
